@@ -342,6 +342,7 @@ func TestCheck(t *testing.T) {
 	}
 
 	restored(t, rep, base, sc)
+	reopened(t, rep, base)
 	tamper(t, env, rep, base)
 	if err := rep.Write(env); err != nil {
 		t.Fatal(err)
@@ -500,6 +501,46 @@ func restored(t *testing.T, rep *report.Report, base string, sc *scanner) {
 			rep.Violate(sec.Name, fmt.Sprintf("restored/create-mode: placed %o: %s", mode, l), fmt.Sprintf("database file placed with mode %o: %s", mode, l), nil)
 		}
 		sec.Samples = append(sec.Samples, fmt.Sprintf("placed with %o -> rewritten files owner-only", mode))
+	}
+	sec.States, sec.Transitions = sec.Evaluations, sec.Evaluations
+}
+
+// reopened: the key-encryption key is consulted while an existing database is opened and never afterwards.
+func reopened(t *testing.T, rep *report.Report, base string) {
+	sec := rep.Add(&report.Section{Name: "kek-use-after-reopen", Engine: "enum", Exhaustive: true, Extra: map[string]int64{},
+		Rule: "databases of three shapes are closed and reopened with a counting key-encryption key; then every kind of operation (reads and each mutating operation, several in a row): the key must not be used after Open returned; non-trivial = mutating operations"})
+	inner := hx.NewKEK()
+	hists := [][]Op{nil, {{Kind: "put", Name: 0, Val: 0}}, {{Kind: "put", Name: 0, Val: 0}, {Kind: "put", Name: 0, Val: 1}, {Kind: "put", Name: 1, Val: 2}}}
+	ops := []Op{{Kind: "get", Name: 0}, {Kind: "list"}, {Kind: "put", Name: 0, Val: 2}, {Kind: "put", Name: 2, Val: 1}, {Kind: "activate", Name: 0, Ver: 2}, {Kind: "delver", Name: 0, Ver: 1}, {Kind: "delete", Name: 1}, {Kind: "put", Name: 1, Val: 0}}
+	for hi, h := range hists {
+		dir := filepath.Join(base, fmt.Sprintf("reopen%d", hi))
+		os.MkdirAll(dir, 0o700)
+		p := filepath.Join(dir, "db")
+		d0, err := db.Open(p, inner, hx.Discard())
+		if err != nil {
+			t.Fatal(err)
+		}
+		for _, o := range h {
+			apply(d0, o)
+		}
+		kek := &countingAEAD{inner: inner}
+		d, err := db.Open(p, kek, hx.Discard())
+		if err != nil {
+			t.Fatal(err)
+		}
+		after := kek.n.Load()
+		for _, o := range ops {
+			apply(d, o)
+			sec.Evaluations++
+			if o.Kind == "put" || o.Kind == "activate" || o.Kind == "delver" || o.Kind == "delete" {
+				sec.Nontrivial++
+			}
+			if n := kek.n.Load(); n != after {
+				rep.Violate(sec.Name, fmt.Sprintf("kek-after-reopen: database %d op %s", hi, o.Kind), fmt.Sprintf("database %d reopened from its file: %s used the key-encryption key %d time(s) after Open had returned", hi, o.Kind, n-after), nil)
+				after = n
+			}
+		}
+		sec.Samples = append(sec.Samples, fmt.Sprintf("database %d: %d KEK uses during Open, 0 afterwards", hi, after))
 	}
 	sec.States, sec.Transitions = sec.Evaluations, sec.Evaluations
 }
